@@ -19,7 +19,7 @@ Alphabets
         (dot segments, empty segment, real names, names of outside files, backslash forms,
         NUL / trailing period / surrounding blanks, '~', 'C:', a 600-char name, the absolute
         path of the outside secret, a double-encoded '..', invalid UTF-8), sequences up to
-        length 2 (quick) / 3 (thorough); every edit-distance-1 mutant (insert / replace /
+        length 2 (+3 over an 8-token core) quick / 3 (+4 over the core) thorough; every edit-distance-1 mutant (insert / replace /
         delete, 26 characters) of 'a.txt' and 'sub/b.bin'; three renderings of the same
         decoded path (minimal escaping, every byte escaped, separators escaped too);
         route options fallback {none, inside, outside} x downloadable {no, yes};
@@ -433,7 +433,9 @@ def path_tokens(tier):
     for n in (1, 2):
         seqs += list(itertools.product(SEGMENTS, repeat=n))
     if tier == 'thorough':
+        seqs += list(itertools.product(SEGMENTS, repeat=3))
         seqs += list(itertools.product(SEG_CORE3 + ['a.txt\x00', ' a.txt', 'a.txt.'], repeat=3))
+        seqs += list(itertools.product(SEG_CORE3[:8], repeat=4))
     else:
         seqs += [s for s in itertools.product(SEG_CORE3[:8], repeat=3)]
     seqs += EXTRA_PATHS
@@ -491,7 +493,11 @@ def range_class(v):
 def path_class(raw_path, prefix):
     p = m_decode_path(raw_path)
     base = prefix if prefix.endswith('/') else prefix + '/'
-    rem = p[len(base):] if p.startswith(base) else p
+    if p == base[:-1]:
+        return 'bare-prefix'
+    if not p.startswith(base):
+        return 'other-prefix'
+    rem = p[len(base):]
     if m_clean(rem):
         return 'clean'
     feats = []
@@ -600,9 +606,11 @@ def judge(world, rep, case, res, opens, permitted, info):
     icls = 'none' if ims is None else case_ims_class(ims)
 
     def viol(kind, explain, **extra):
-        sig = {'kind': kind, 'part': part, 'stack': stack.split('-')[0], 'method': method, 'path': pcls}
+        sig = {'kind': kind, 'part': part, 'stack': stack.split('-')[0]}
         if part == 'range':
             sig.update({'range': rcls, 'ims': icls})
+        else:
+            sig.update({'method': method, 'path': pcls})
         sig.update(extra)
         shown = raw_path.replace(fx.top, '<T>') if len(raw_path) < 200 else raw_path[:60].replace(fx.top, '<T>') + '...(%d chars)' % len(raw_path)
         rep.violation(sig, {'case': [part, routes_d, stack, method, list(tokens), mode, rng, ims], 'seed': rep.seed},
@@ -643,8 +651,7 @@ def judge(world, rep, case, res, opens, permitted, info):
         statuses = sorted({e['status'] for e in permitted})
         note = ' (body discloses an outside file)' if res.body.startswith(b'SECRET') else ''
         viol('status', 'model permits status %r (%s path, resolves to %r), got %r%s'
-             % (statuses, info.get('cls'), info.get('target'), code, note), got=str(code),
-             want='/'.join(map(str, statuses)))
+             % (statuses, info.get('cls'), info.get('target'), code, note), got=str(code))
     else:
         w = same[0][1]
         viol(w[0], 'status %r as permitted, but %s' % (code, w[1]), got=str(code))
@@ -736,7 +743,7 @@ def build_shards(tier, seed):
             shards.append(('path', [[pf, 'root', fb, False]], cases))
     # look-alike prefixes and LIFO
     lifo_paths = ['/static/sub/b.bin', '/static/sub/secret.txt', '/static/a.txt', '/static/secret.txt', '/staticx/a.txt',
-                  '/static2/secret.txt', '/static', '/static/', '/stati/a.txt', '/stat', '/static/sub', '/static/sub/',
+                  '/static2/secret.txt', '/static', '/static/', '/staticx', '/static2', '/static.', '/static%2F', '/stati/a.txt', '/stat', '/static/sub', '/static/sub/',
                   '/static/sub/deep/c.txt', '/Static/a.txt', '/', '/a.txt', '/static/sub/../a.txt', '/static/sub/../secret.txt',
                   '/static/sub/../sub/secret.txt', '/x/static/a.txt', '/static%2Fa.txt', '/static/sub%2Fb.bin']
     for fb in (None, 'out'):
@@ -793,8 +800,8 @@ def check(rep):
     toks = path_tokens(rep.tier)
     rep.bounds = {
         'path_tokens': len(SEGMENTS), 'token_sequences': len(toks),
-        'max_sequence_length': 2 if rep.tier == 'quick' else 3,
-        'third_position_alphabet': 8 if rep.tier == 'quick' else len(SEG_CORE3) + 3,
+        'max_sequence_length': '2 over all tokens, 3 over 8 core tokens' if rep.tier == 'quick'
+        else '3 over all tokens (+%d-token core set), 4 over 8 core tokens' % (len(SEG_CORE3) + 3),
         'name_mutants': {b: len(mutants(b)) for b in ('a.txt', 'sub/b.bin')},
         'renderings': ['minimal escaping', 'every byte escaped', 'separators escaped'],
         'route_options': 'fallback {none, inside, outside} x downloadable {no, yes}; prefix forms /p, /p/, /; 2-route LIFO in both orders',
